@@ -227,14 +227,17 @@ def check(ctx):
     rets = [n_ for n_ in run.own_nodes() if isinstance(n_, ast.Return) and n_.value is not None and isinstance(n_.value, ast.Call) and rr.run_physical in m.callee_funcs(run, n_.value)]
     ctx.ob("C02.B5", f"{run.short}/returns-execution-value", len(rets) == 1, loc(run), "run returns the value of run_physical" if len(rets) == 1 else "run does not return run_physical's value")
     ob = [e for nm, bs in run.bindings.items() for k, e, p_ in bs if k == "assign" and e is not None and ".gather(" in norm(e)]
-    ok = len(ob) == 1 and norm(ob[0]) == "plan.gather(output) if output is not None else None"
+    keep_r = global_names(m, run)
+    ok = len(ob) == 1 and canon([ob[0]], keep_r) == canon(["plan.gather(output) if output is not None else None"], keep_r) and \
+        any(isinstance(x, ast.Call) and isinstance(x.func, ast.Attribute) and x.func.attr == "gather" and len(x.args) == 1 and is_name(x.args[0], "output") for x in ast.walk(ob[0]))
     ctx.ob("C02.B5", f"{run.short}/gathers-output", ok, loc(run), "the output spec is gathered (None means no output)" if ok else "the output spec is not gathered as `plan.gather(output) if output is not None else None`")
     rp = rr.run_physical
     rets = [n_ for n_ in rp.own_nodes() if isinstance(n_, ast.Return) and n_.value is not None]
     ok = len(rets) == 1 and canon([rets[0].value], global_names(m, rp)) == canon(["output_slot.value if output_slot else None"], global_names(m, rp))
     if ok:
         # that variable is the second element returned by the preparation step
-        v_ = rets[0].value.test.id if isinstance(rets[0].value, ast.IfExp) and isinstance(rets[0].value.test, ast.Name) else None
+        tn_ = sorted(names_in(rets[0].value.test)) if isinstance(rets[0].value, ast.IfExp) else []
+        v_ = tn_[0] if len(tn_) == 1 else None
         b_ = [b for b in rp.bindings.get(v_, []) if b[0] == "assign"] if v_ else []
         ok = len(b_) == 1 and b_[0][2] == (1,) and isinstance(b_[0][1], ast.Call) and rr.prep_run in m.callee_funcs(rp, b_[0][1])
     ctx.ob("C02.B5", f"{rp.short}/returns-slot-value", ok, loc(rp), "returns the output slot's value" if ok else "run_physical does not return the output slot's value")
@@ -247,7 +250,8 @@ def check(ctx):
         ok = len(ob) == 1 and bool(onp) and canon([ob[0]], keep) == canon([f"result_lookup[{onp[0]}] if {onp[0]} else None"], keep)
         if ok:
             # the subscripted table is the per-run slot table
-            tb = ob[0].body.value.id if isinstance(ob[0].body, ast.Subscript) and isinstance(ob[0].body.value, ast.Name) else None
+            subs = [x for x in ast.walk(ob[0]) if isinstance(x, ast.Subscript) and isinstance(x.value, ast.Name)]
+            tb = subs[0].value.id if len(subs) == 1 else None
             ok = tb is not None and any(k == "assign" and isinstance(e, ast.DictComp) and "Slot(" in norm(e.value) for k, e, p_ in f.bindings.get(tb, []))
         ctx.ob("C02.B5", f"{f.short}/output-slot", ok, loc(f), "output slot = slot-table entry of the output node (a literal is its own slot)" if ok else "output slot is not the slot-table entry of the output node")
     pc = R.calls_to(m, rp, rr.prep_run)
